@@ -44,6 +44,11 @@ def run(tier, seed, which="C08"):
                     tys = [5]
                 add("%s_L%d_k%d" % (cname, L, k), s, k, rng.choice(tys), rng.choice([1, 2, 4, 16]))
                 i += 1
+    # long sequences on both sides of the nested levels of the parallel controller (odd and even lengths), few copies
+    for L in ([777, 1001, 2004] if tier == "quick" else [501, 777, 1000, 1001, 1503, 2001, 2004, 3001]):
+        for cname, alpha in (("uniform", gen.DNA), ("uniformp", gen.AA)):
+            s = gen.rand_seq(rng, alpha, L)
+            add("%s_long_L%d" % (cname, L), s, rng.choice([2, 3, 4]), 5, rng.choice([2, 4, 16]))
     # many copies of a single-letter string: the regime in which gap costs and substitution scores scale with the group sizes
     for cname, ch, tys in (("allX", "X", [5]), ("allN", "N", [0, 0, 2, 5]), ("allB", "B", [5]), ("allA", "A", [0, 1, 2, 5]), ("allW", "W", [5]), ("allL", "L", [3, 4, 5])):
         for k, L in ([(300, 40), (500, 12)] if tier == "quick" else [(258, 700), (300, 40), (400, 10), (500, 5), (500, 60), (1000, 20)]):
